@@ -426,6 +426,7 @@ class _MissingImportFinder:
         # function scope.
         self._deferred_load_checks = []
         self._deferred_use_marks = []
+        self._in_doctest = False
 
         # Whether we're currently in a FunctionDef.
         self._in_FunctionDef = False
@@ -478,7 +479,11 @@ class _MissingImportFinder:
                 # this doesn't matter yet, and it's uncommon to use 'global'
                 # in a doctest, so this is low priority to fix.
                 with self._NewScopeCtx(check_unused_imports=False):
-                    self._scan_node(block.ast_node)
+                    self._in_doctest = True
+                    try:
+                        self._scan_node(block.ast_node)
+                    finally:
+                        self._in_doctest = False
             # Find literal brace identifiers like "... `Foo` ...".
             # TODO: Do this inline: (1) faster; (2) can use proper scope of vars
             # Once we do that, use _check_load() with new args
@@ -1018,7 +1023,12 @@ class _MissingImportFinder:
         if is_star:
             logger.debug("Got star import: line %s: 'from %s import *'",
                          self._lineno, modulename)
-        if self.unused_imports is None or is_star or modulename == "__future__":
+        if (self.unused_imports is None or is_star
+            or modulename == "__future__" or self._in_doctest):
+            # Imports inside doctests are not tracked: they are never
+            # reported as unused (and their linenos are relative to the
+            # doctest, so a rebinding 'import os; import os' there would be
+            # mistaken for an import of the file itself).
             value = None
         else:
             imp = Import.from_split((modulename, node.name, name))
